@@ -44,6 +44,7 @@ def plan(tier, seed):
     for y in (2021, 2022, 2023):
         for g in ([scen.FAMILIES[0:4], scen.FAMILIES[4:8], scen.FAMILIES[8:12]] if tier == 'quick' else [[f] for f in scen.FAMILIES]):
             sp.append({'year': y, 'families': g, 'n': n})
+        sp.append({'year': y, 'directed': True, 'n': 3 if tier == 'quick' else 60})
     return sp
 
 
@@ -122,8 +123,9 @@ def run_shard(spec, tier, seed):
     from hv import scen, drive, realwork
     res = Result()
     year = spec['year']
-    for fam in spec['families']:
-        for p in scen.personas(seed, year, fam, spec['n']):
+    todo = scen.directed_personas(year, seed, spec['n']) if spec.get('directed') else [(fam, p) for fam in spec['families'] for p in scen.personas(seed, year, fam, spec['n'])]
+    for fam, p in todo:
+        if True:
             out = scen.solve_persona(p)
             res.count('solves')
             if out.exc is not None or out.ret is not True:
